@@ -1,3 +1,4 @@
+\* needs env ELEMS = ndjson file of directive texts {"e":[bytes]} (written by checks/C29.py, which also generates the per-tier cfg)
 CONSTANT MaxDirs = 2
 INIT Init
 NEXT Next
